@@ -163,10 +163,10 @@ func (e Edit) String() string {
 	if e.V != "" {
 		s += "," + e.V
 	}
-	if e.F != nil {
+	if e.Op == "cfg" {
 		keys := []string{}
 		for k, v := range e.F {
-			if v != "none" {
+			if v != "none" && !(k == "syntax" && v == "ok") {
 				keys = append(keys, k+"="+v)
 			}
 		}
